@@ -125,7 +125,11 @@ def check_solve(spec, counters, violations, fault_at=None, persistent=False, tig
     k0, va0, ta0 = row0(S.opt)
     # iteration 0 was logged at construction (or at the last clear_log) and no knob moved since: it must hold the
     # knob values found in the container now (independent reading of "where the solve starts")
-    if second is None and presteps is None and [float(v) for v in S.knobs()] != k0 and not tighten:
+    #  -- bit-exact for unit weights, within rounding of the weight scaling (4 eps relative) otherwise, as the property says
+    def _same_start(a, b, w):
+        return a == b or (w != 1.0 and abs(a - b) <= 4 * np.finfo(float).eps * max(abs(a), abs(b)))
+    if second is None and presteps is None and not tighten and \
+            not all(_same_start(float(a), float(b), float(w)) for a, b, w in zip(S.knobs(), k0, spec["wv"])):
         violations.append({"what": "C09 iteration 0 of the log records knobs %s but the container held %s when it was logged" % (k0, S.knobs()),
                            "spec": spec})
         return 0
